@@ -31,12 +31,18 @@ def event_class(tr, i):
     return (ev["op"], ev.get("packaging"), ev.get("pretty"), ev.get("part", "")[:12] if ev["op"] in ("edit", "set_part") else "", tuple(prev[-1:]), tr[0]["how"])
 
 
-def run_package_property(run, tier, prefixes, ntraces=None, nsteps=None, sources=None, mc=True):
+def run_package_property(run, tier, prefixes, ntraces=None, nsteps=None, sources=None, mc=True, harvest=False):
     if mc:
         model_check(run, tier)
     n = ntraces or (320 if tier == "quick" else 3000)
     steps = nsteps or (10 if tier == "quick" else 12)
     traces = pd.generate(n, run.seed, steps, sources=sources)
+    if harvest:
+        # the Document.save calls of the repository's own tests, as two-event traces
+        rc, htraces, _tests, tail = pd.harvest_repo_save_calls()
+        run.notes["harvested_save_calls"] = len(htraces)
+        run.notes["harvest_pytest"] = f"rc={rc} {tail[:60]}"
+        traces = traces + htraces
     res, rep = pd.validate(traces)
     run.add_tlc("PackageTrace validation of recorded histories", res)
     if rep is None:
